@@ -331,8 +331,8 @@ func (an *An) base(v ssa.Value, facts []ir.Fact) AV {
 		}
 		an.visiting[v] = true
 		defer delete(an.visiting, v)
-		var as []AV
-		incr, decr := false, false
+		var indep []AV
+		var selfs []selfEdge
 		for i, e := range x.Edges {
 			pred := x.Block().Preds[i]
 			fs := append([]ir.Fact{}, ir.BlockFacts(pred)...)
@@ -341,39 +341,46 @@ func (an *An) base(v ssa.Value, facts []ir.Fact) AV {
 					fs = append(fs, ir.EdgeFacts(pred, si)...)
 				}
 			}
-			// loop-carried monotone update: phi = phi + d with d >= 0 (or <= 0):
-			// the edge cannot lower (raise) the value, so the lower (upper)
-			// bounds of the other edges remain valid; the other side is widened away.
-			if b, ok := ir.Resolve(e).(*ssa.BinOp); ok && (b.Op == token.ADD || b.Op == token.SUB) {
-				var d ssa.Value
-				if ir.Resolve(b.X) == v {
-					d = b.Y
-				} else if b.Op == token.ADD && ir.Resolve(b.Y) == v {
-					d = b.X
+			in, se := an.classify(e, x, fs, 0)
+			indep = append(indep, in...)
+			selfs = append(selfs, se...)
+		}
+		if len(selfs) == 0 {
+			return join(indep)
+		}
+		// loop-carried value: phi = f(phi). Lower bounds of the independent edges survive when no
+		// self edge can lower the value below them; symmetrically for upper bounds.
+		loOK, hiOK := true, true
+		loSet, hiSet := append([]AV{}, indep...), append([]AV{}, indep...)
+		nan := false
+		for _, a := range indep {
+			nan = nan || a.NaN
+		}
+		for _, se := range selfs {
+			switch se.kind {
+			case "add":
+				lo, hi, okLo, okHi := se.d.ConstBounds()
+				if !(okLo && lo >= 0) {
+					loOK = false
 				}
-				if d != nil {
-					da := an.Eval(d, fs)
-					lo, hi, okLo, okHi := da.ConstBounds()
-					up := (b.Op == token.ADD && okLo && lo >= 0) || (b.Op == token.SUB && okHi && hi <= 0)
-					down := (b.Op == token.ADD && okHi && hi <= 0) || (b.Op == token.SUB && okLo && lo >= 0)
-					if up && !da.NaN {
-						incr = true
-						continue
-					}
-					if down && !da.NaN {
-						decr = true
-						continue
-					}
+				if !(okHi && hi <= 0) {
+					hiOK = false
 				}
+				nan = nan || se.d.NaN
+			case "min":
+				loSet = append(loSet, se.x)
+				nan = nan || se.x.NaN
+			case "max":
+				hiSet = append(hiSet, se.x)
+				nan = nan || se.x.NaN
 			}
-			as = append(as, an.Eval(e, fs))
 		}
-		r := join(as)
-		if incr {
-			r.Hi, r.Exact = nil, nil
+		r := AV{NaN: nan}
+		if loOK {
+			r.Lo = join(loSet).Lo
 		}
-		if decr {
-			r.Lo, r.Exact = nil, nil
+		if hiOK {
+			r.Hi = join(hiSet).Hi
 		}
 		return r
 	case *ssa.Convert:
@@ -542,6 +549,18 @@ func (an *An) binop(v *ssa.BinOp, facts []ir.Fact) AV {
 			}
 		}
 	case token.MUL:
+		// integer constant * exact linear expression
+		for _, p := range [][2]AV{{x, y}, {y, x}} {
+			if p[0].Exact != nil && p[0].Exact.IsConst() && p[1].Exact != nil && !p[1].Exact.IsConst() {
+				k := p[0].Exact.C
+				if k == math.Trunc(k) && math.Abs(k) < 1e9 {
+					e := Konst(0).Add(*p[1].Exact, int(k))
+					r := exactAV(e)
+					r.NaN = nan
+					return r
+				}
+			}
+		}
 		// constant * bounded
 		for _, p := range [][2]AV{{x, y}, {y, x}} {
 			if p[0].Exact != nil && p[0].Exact.IsConst() {
@@ -723,4 +742,109 @@ func ProvesGE(av AV, target Lin) bool {
 		}
 	}
 	return false
+}
+
+// selfEdge describes how a loop-carried phi is updated along one back edge.
+type selfEdge struct {
+	kind string // add: phi + d ; min: math.Min(phi, x) ; max: math.Max(phi, x)
+	d, x AV
+}
+
+// classify splits an incoming value of loop phi `phi` into values independent of
+// the phi and self updates (phi + d, min(phi, x), max(phi, x)), looking through
+// intermediate phis (if/else inside the loop body).
+func (an *An) classify(e ssa.Value, phi *ssa.Phi, facts []ir.Fact, depth int) (indep []AV, selfs []selfEdge) {
+	r := ir.Resolve(e)
+	if r == ssa.Value(phi) {
+		return nil, []selfEdge{{kind: "add", d: exactAV(Konst(0))}}
+	}
+	if depth < 4 {
+		switch x := r.(type) {
+		case *ssa.Phi:
+			if !an.visiting[x] && x.Block() != phi.Block() {
+				an.visiting[x] = true
+				defer delete(an.visiting, x)
+				for i, e2 := range x.Edges {
+					pred := x.Block().Preds[i]
+					fs := append([]ir.Fact{}, ir.BlockFacts(pred)...)
+					for si, s := range pred.Succs {
+						if s == x.Block() {
+							fs = append(fs, ir.EdgeFacts(pred, si)...)
+						}
+					}
+					in, se := an.classify(e2, phi, fs, depth+1)
+					indep = append(indep, in...)
+					selfs = append(selfs, se...)
+				}
+				return
+			}
+		case *ssa.BinOp:
+			if x.Op == token.ADD || x.Op == token.SUB {
+				try := func(self, other ssa.Value, sign int) bool {
+					in, se := an.classify(self, phi, facts, depth+1)
+					if len(in) != 0 || len(se) == 0 {
+						return false
+					}
+					d := an.Eval(other, facts)
+					for _, s := range se {
+						if s.kind != "add" {
+							return false
+						}
+					}
+					for _, s := range se {
+						nd := AV{NaN: s.d.NaN || d.NaN}
+						dl, dh := d.Lo, d.Hi
+						if sign < 0 {
+							dl, dh = nil, nil
+							for _, h := range d.Hi {
+								dl = append(dl, Konst(0).Add(h, -1))
+							}
+							for _, l := range d.Lo {
+								dh = append(dh, Konst(0).Add(l, -1))
+							}
+						}
+						for _, a := range s.d.Lo {
+							for _, b := range dl {
+								nd.Lo = append(nd.Lo, a.Add(b, 1))
+							}
+						}
+						for _, a := range s.d.Hi {
+							for _, b := range dh {
+								nd.Hi = append(nd.Hi, a.Add(b, 1))
+							}
+						}
+						selfs = append(selfs, selfEdge{kind: "add", d: nd})
+					}
+					return true
+				}
+				if try(x.X, x.Y, map[bool]int{true: 1, false: -1}[x.Op == token.ADD]) {
+					return
+				}
+				if x.Op == token.ADD && try(x.Y, x.X, 1) {
+					return
+				}
+				selfs = nil
+			}
+		case *ssa.Call:
+			n := ir.CallName(x)
+			if (n == "math.Min" || n == "math.Max") && len(x.Call.Args) == 2 {
+				for k := 0; k < 2; k++ {
+					in, se := an.classify(x.Call.Args[k], phi, facts, depth+1)
+					if len(in) == 0 && len(se) == 1 && se[0].kind == "add" {
+						lo, hi, okLo, okHi := se[0].d.ConstBounds()
+						if okLo && okHi && lo == 0 && hi == 0 {
+							kind := "min"
+							if n == "math.Max" {
+								kind = "max"
+							}
+							return nil, []selfEdge{{kind: kind, x: an.Eval(x.Call.Args[1-k], facts)}}
+						}
+					}
+				}
+			}
+		case *ssa.Convert:
+			// int<->float conversion of the phi itself (e.g. float64(sum) is not a self edge) : fall through
+		}
+	}
+	return []AV{an.Eval(e, facts)}, nil
 }
